@@ -46,7 +46,11 @@ var (
 
 // c14Payload returns the DEFLATE stream of a request whose padding inflates to sizeMiB, produced without materialising the inflated text.
 func c14Payload(c C14Case, spec world.Spec, now time.Time) []byte {
-	key := fmt.Sprintf("%s/%d/%s/%s/%v/%s/%v/%d", c.Endpoint[:3], c.SizeMiB, c.Placement, c.Pad, c.Valid, c.Container, c.Best, c.Streams)
+	ek := c.Endpoint[:3]
+	if strings.HasSuffix(c.Endpoint, "-http-encoded") {
+		ek = c.Endpoint
+	}
+	key := fmt.Sprintf("%s/%d/%s/%s/%v/%s/%v/%d", ek, c.SizeMiB, c.Placement, c.Pad, c.Valid, c.Container, c.Best, c.Streams)
 	c14Mu.Lock()
 	defer c14Mu.Unlock()
 	if b, ok := c14Cache[key]; ok {
@@ -58,7 +62,32 @@ func c14Payload(c C14Case, spec world.Spec, now time.Time) []byte {
 	}
 	const marker = "PADDINGGOESHERE"
 	var x string
-	if strings.HasPrefix(c.Endpoint, "sso") {
+	switch {
+	case c.Endpoint == "attr-http-encoded":
+		q := spsim.NewAttrQuery("_c14", issuer, "login0@users.example")
+		q.IssueInstant = spsim.Instant(now, 0)
+		x = string(xt.Write(spsim.Envelope(q.QueryTree(plainStyle), "soap"), plainStyle.W))
+		i := strings.Index(x, "<soap:Body")
+		if i < 0 {
+			i = strings.Index(x, ">") + 1
+		}
+		x = x[:i] + "<!--" + marker + "-->" + x[i:]
+	case strings.HasSuffix(c.Endpoint, "-http-encoded"):
+		var inner string
+		if strings.HasPrefix(c.Endpoint, "sso") {
+			a := spsim.NewAuthnReq("_c14", issuer)
+			a.IssueInstant = spsim.Instant(now, 0)
+			inner = string(xt.Write(a.Tree(plainStyle), plainStyle.W))
+		} else {
+			l := spsim.NewLogoutReq("_c14", issuer, "usermark0")
+			l.IssueInstant = spsim.Instant(now.Add(-10*time.Second), 0)
+			inner = string(xt.Write(l.Tree(plainStyle), plainStyle.W))
+		}
+		x = "SAMLRequest=" + qesc(base64.StdEncoding.EncodeToString([]byte(inner))) + "&RelayState=" + marker
+	}
+	if x != "" {
+		// built above: padding placement is fixed for these endpoints
+	} else if strings.HasPrefix(c.Endpoint, "sso") {
 		a := spsim.NewAuthnReq("_c14", issuer)
 		a.IssueInstant = spsim.Instant(now, 0)
 		switch c.Placement {
@@ -79,7 +108,11 @@ func c14Payload(c C14Case, spec world.Spec, now time.Time) []byte {
 		}
 		x = string(xt.Write(l.Tree(plainStyle), plainStyle.W))
 	}
-	switch c.Placement {
+	placement := c.Placement
+	if strings.HasSuffix(c.Endpoint, "-http-encoded") {
+		placement = "fixed"
+	}
+	switch placement {
 	case "comment":
 		i := strings.Index(x, ">") + 1
 		if strings.HasPrefix(x, "<?xml") {
@@ -88,6 +121,14 @@ func c14Payload(c C14Case, spec world.Spec, now time.Time) []byte {
 		x = x[:i] + "<!--" + marker + "-->" + x[i:]
 	case "after-root":
 		x = x + "<!--" + marker + "-->"
+	case "xmldecl":
+		// blanks inside the XML declaration, before its closing ?>
+		if strings.HasPrefix(x, "<?xml") {
+			i := strings.Index(x, "?>")
+			x = x[:i] + marker + x[i:]
+		} else {
+			x = "<?xml version=\"1.0\"" + marker + "?>" + x
+		}
 	}
 	pre, post, _ := strings.Cut(x, marker)
 	var buf bytes.Buffer
@@ -108,7 +149,11 @@ func c14Payload(c C14Case, spec world.Spec, now time.Time) []byte {
 	}
 	open()
 	w.Write([]byte(pre))
-	chunk := bytes.Repeat([]byte(c.Pad), 1<<20)
+	pad := c.Pad
+	if c.Placement == "xmldecl" {
+		pad = " " // only white space is well-formed there
+	}
+	chunk := bytes.Repeat([]byte(pad), 1<<20)
 	if c.Pad == "noise" {
 		// text that compresses about 10:1 only: words from a small vocabulary in pseudo-random order
 		chunk = c14Noise(1 << 20)
@@ -157,9 +202,9 @@ func genC14Case(t *rapid.T) C14Case {
 		sizes = append(sizes, 384, 512, 768, 1024, 1024)
 	}
 	return C14Case{
-		Endpoint:  rapid.SampledFrom([]string{"sso-query", "sso-form", "slo-form", "slo-query"}).Draw(t, "endpoint"),
+		Endpoint:  rapid.SampledFrom([]string{"sso-query", "sso-form", "slo-form", "slo-query", "sso-query", "sso-form", "slo-form", "slo-query", "attr-http-encoded", "sso-http-encoded", "slo-http-encoded"}).Draw(t, "endpoint"),
 		SizeMiB:   pick(t, "size", sizes),
-		Placement: rapid.SampledFrom([]string{"comment", "text", "attribute", "after-root"}).Draw(t, "placement"),
+		Placement: rapid.SampledFrom([]string{"comment", "text", "attribute", "after-root", "xmldecl"}).Draw(t, "placement"),
 		Pad:       rapid.SampledFrom([]string{"A", " ", "A"}).Draw(t, "pad"),
 		Valid:     rapid.IntRange(0, 3).Draw(t, "valid") != 0,
 		Container: rapid.SampledFrom([]string{"", "", "", "zlib", "gzip"}).Draw(t, "container"),
@@ -185,9 +230,19 @@ func c14Run(c C14Case) (vs []*ev.Violation, alloc uint64, compressed int, accept
 	if strings.HasPrefix(c.Endpoint, "slo") {
 		route = spec.IdP.Route("slo")
 	}
-	if strings.HasSuffix(c.Endpoint, "query") {
+	switch {
+	case strings.HasSuffix(c.Endpoint, "-http-encoded"):
+		// compression at the HTTP layer: the body itself is the DEFLATE (or gzip) stream, announced by Content-Encoding
+		ce := map[string]string{"": "deflate", "zlib": "deflate", "gzip": "gzip"}[c.Container]
+		switch c.Endpoint {
+		case "attr-http-encoded":
+			hr = obs.HTTPReq{Method: "POST", Path: spec.IdP.Route("attribute"), ContentType: "text/xml; charset=utf-8", Body: string(payload), Headers: [][2]string{{"Content-Encoding", ce}}}
+		default:
+			hr = obs.HTTPReq{Method: "POST", Path: route, ContentType: "application/x-www-form-urlencoded", Body: string(payload), Headers: [][2]string{{"Content-Encoding", ce}}}
+		}
+	case strings.HasSuffix(c.Endpoint, "query"):
 		hr = obs.HTTPReq{Method: "GET", Path: route, RawQuery: "SAMLRequest=" + msg + "&RelayState=rs"}
-	} else {
+	default:
 		hr = obs.HTTPReq{Method: "POST", Path: route, ContentType: "application/x-www-form-urlencoded", Body: "SAMLRequest=" + msg + "&RelayState=rs&SAMLEncoding=" + qesc(spsim.EncodingDeflate)}
 	}
 	w := mustBuild(spec)
@@ -262,12 +317,20 @@ func TestC14Ladder(t *testing.T) {
 			}
 			// the other places a decoder may stop looking, and other ways to pack the same amount
 			for _, size := range []int{32, 128} {
-				for _, pl := range []string{"after-root", "text", "attribute"} {
+				for _, pl := range []string{"after-root", "text", "attribute", "xmldecl"} {
 					cases = append(cases, C14Case{Endpoint: ep, SizeMiB: size, Placement: pl, Pad: "A", Valid: true, Best: true})
 				}
 				for _, streams := range []int{4, 9} {
 					cases = append(cases, C14Case{Endpoint: ep, SizeMiB: size, Placement: "comment", Pad: "A", Valid: true, Streams: streams})
 					cases = append(cases, C14Case{Endpoint: ep, SizeMiB: size, Placement: "after-root", Pad: " ", Valid: true, Streams: streams})
+				}
+			}
+		}
+		// compression announced at the HTTP layer (Content-Encoding) instead of by SAMLEncoding
+		for _, ep := range []string{"attr-http-encoded", "sso-http-encoded", "slo-http-encoded"} {
+			for _, size := range []int{32, 256} {
+				for _, cont := range []string{"", "gzip"} {
+					cases = append(cases, C14Case{Endpoint: ep, SizeMiB: size, Placement: "comment", Pad: "A", Valid: true, Container: cont, Best: true})
 				}
 			}
 		}
